@@ -3,7 +3,8 @@
 use crate::delays;
 use parity_db::{CompressionType, Db, Operation};
 use pv::{
-	dbutil::{col, DbCfg},
+	dbutil::{col, multitree_col, DbCfg},
+	model::{ChildSpec, TreeSpec},
 	json::J,
 	scratch::{catch, panic_site, Scratch},
 	Ctx, Report, Rng,
@@ -17,7 +18,7 @@ use std::{
 	time::{Duration, Instant},
 };
 
-const KINDS: [&str; 7] = ["tiny_commits", "huge_transactions", "index_growth", "slow_workers", "slow_clients", "giant_transaction", "worker_dies_while_throttled"];
+const KINDS: [&str; 8] = ["tiny_commits", "huge_transactions", "index_growth", "slow_workers", "slow_clients", "giant_transaction", "worker_dies_while_throttled", "postponed_dereference"];
 
 fn value(client: u8, seq: u64, len: usize) -> Vec<u8> {
 	let mut v = Vec::with_capacity(len.max(10));
@@ -31,8 +32,8 @@ fn value(client: u8, seq: u64, len: usize) -> Vec<u8> {
 }
 
 pub fn run_case(ctx: &Ctx, rep: &mut Report, case_seed: u64, variant: u64) {
-	let kind = (variant % 7) as usize;
-	let always_flush = kind != 5 && (variant / 7) % 2 == 0;
+	let kind = (variant % 8) as usize;
+	let always_flush = kind != 5 && (variant / 16) % 2 == 0;
 	// shutdown requested at any moment: half of the histories drop the handle the instant the last
 	// commit call returned (queue, log and enact stages still busy) instead of waiting for the drain
 	// (not with the test-only `always_flush` option: there the log worker enacts inline and a drop
@@ -57,7 +58,13 @@ pub fn run_case(ctx: &Ctx, rep: &mut Report, case_seed: u64, variant: u64) {
 fn scenario(ctx: &Ctx, rep: &mut Report, case_seed: u64, variant: u64, kind: usize, always_flush: bool, immediate: bool, desc: &str) {
 	let mut rng = Rng::new(case_seed);
 	let dir = Scratch::new("c15");
-	let mut cfg = DbCfg::new(vec![col(false, kind == 2, false, false, CompressionType::NoCompression), col(true, false, false, false, CompressionType::NoCompression)]);
+	let mut cols = vec![col(false, kind == 2, false, false, CompressionType::NoCompression), col(true, false, false, false, CompressionType::NoCompression)];
+	if kind == 7 {
+		// a tree column with pruning: a dereference committed while the tree's reader is locked is
+		// postponed by the log worker; it must be picked up again WITHOUT further client activity
+		cols.push(multitree_col(false, variant % 3 == 1, variant % 5 == 2));
+	}
+	let mut cfg = DbCfg::new(cols);
 	if kind == 2 {
 		cfg.salt = Some([0u8; 32]);
 	}
@@ -111,8 +118,65 @@ fn scenario(ctx: &Ctx, rep: &mut Report, case_seed: u64, variant: u64, kind: usi
 			let mut expect: BTreeMap<(u8, Vec<u8>), Option<Vec<u8>>> = BTreeMap::new();
 			let mut err = None;
 			let mut max_latency = Duration::ZERO;
+			let mut live_trees: Vec<Vec<u8>> = vec![];
+			let mut dead_trees: Vec<Vec<u8>> = vec![];
+			let mut guarded_derefs = 0u64;
 			for seq in 1..=n_tx {
 				let mut tx = vec![];
+				if kind == 7 {
+					// insert a small tree; every third round (and in the last one) dereference an older
+					// tree WHILE holding its read guard, keep the guard for a while (further commits
+					// may or may not follow under it), release it - and in the last round do nothing
+					// more: the postponed removal has to complete on its own
+					let key = format!("c{}-tree-{}", c, seq).into_bytes();
+					let spec = TreeSpec {
+						data: value(c as u8, seq, r.range(4, 200) as usize),
+						children: (0..r.range(0, 4)).map(|i| ChildSpec::New(TreeSpec::leaf(value(c as u8, seq * 10 + i, r.range(1, 300) as usize)))).collect(),
+					};
+					let node = spec.to_new_node(&|id| id);
+					if let Err(e) = db.commit_changes(vec![(2u8, Operation::InsertTree(key.clone(), node))]) {
+						err = Some(format!("InsertTree {} of client {} failed: {}", seq, c, e));
+						break
+					}
+					returned.fetch_add(1, Ordering::SeqCst);
+					live_trees.push(key);
+					if (seq % 3 == 0 || seq == n_tx) && !live_trees.is_empty() {
+						let victim = live_trees.remove(r.usize(live_trees.len()));
+						let reader = match db.get_tree(2, &victim) {
+							Ok(Some(t)) => t,
+							Ok(None) => {
+								err = Some(format!("live tree {} of client {} has no reader", String::from_utf8_lossy(&victim), c));
+								break
+							},
+							Err(e) => {
+								err = Some(format!("get_tree failed: {}", e));
+								break
+							},
+						};
+						let guard = reader.read();
+						let t = Instant::now();
+						if let Err(e) = db.commit_changes(vec![(2u8, Operation::DereferenceTree(victim.clone()))]) {
+							err = Some(format!("DereferenceTree {} of client {} failed: {}", seq, c, e));
+							break
+						}
+						max_latency = max_latency.max(t.elapsed());
+						returned.fetch_add(1, Ordering::SeqCst);
+						guarded_derefs += 1;
+						dead_trees.push(victim);
+						for _ in 0..r.range(0, 2) {
+							let key = format!("c{}-k{}", c, r.below(50)).into_bytes();
+							let v = value(c as u8, seq, r.range(10, 700) as usize);
+							expect.insert((0, key.clone()), Some(v.clone()));
+							if db.commit_changes(vec![(0u8, Operation::Set(key, v))]).is_ok() {
+								returned.fetch_add(1, Ordering::SeqCst);
+							}
+						}
+						std::thread::sleep(Duration::from_millis(r.range(5, if seq == n_tx { 400 } else { 60 })));
+						drop(guard);
+						drop(reader);
+					}
+					continue
+				}
 				match kind {
 					1 | 5 | 6 => {
 						// 1 - 20 MiB per transaction; the giant one exceeds the 128 MiB limit of
@@ -172,7 +236,7 @@ fn scenario(ctx: &Ctx, rep: &mut Report, case_seed: u64, variant: u64, kind: usi
 					std::thread::sleep(Duration::from_micros(r.range(100, 5000)));
 				}
 			}
-			(expect, err, max_latency)
+			(expect, err, max_latency, live_trees, dead_trees, guarded_derefs)
 		}));
 	}
 	// ---- monitor: progress = a commit returned or a pipeline counter moved
@@ -223,8 +287,13 @@ fn scenario(ctx: &Ctx, rep: &mut Report, case_seed: u64, variant: u64, kind: usi
 		rep.count("queue_full_throttles", 1);
 	}
 	let mut expects = vec![];
+	let mut live_trees: Vec<Vec<u8>> = vec![];
+	let mut dead_trees: Vec<Vec<u8>> = vec![];
 	for h in handles {
-		let (e, err, lat) = h.join().expect("client");
+		let (e, err, lat, lt, dt, gd) = h.join().expect("client");
+		live_trees.extend(lt);
+		dead_trees.extend(dt);
+		rep.count("dereferences_under_guard", gd);
 		rep.max("commit_latency_ms", lat.as_millis() as u64);
 		if let Some(e) = err {
 			rep.violation("scenario=C15;failure=commit_error".to_string(), e, J::obj().set("case", J::s(desc.to_string())));
@@ -295,7 +364,13 @@ fn scenario(ctx: &Ctx, rep: &mut Report, case_seed: u64, variant: u64, kind: usi
 	let (hits, delayed) = delays::take_hits();
 	rep.count("yield_hits", hits.iter().sum());
 	rep.count("yield_delays", delayed);
-	rep.seen(format!("{}|throttled{}|af{}|delay{}|imm{}", KINDS[kind], throttled as u8, always_flush as u8, profile, immediate as u8));
+	if kind == 7 {
+		rep.count("postponements_seen", hits[9]);
+		if hits[9] > 0 {
+			rep.count(if immediate { "postponed_then_dropped" } else { "postponed_then_drained_without_client" }, 1);
+		}
+	}
+	rep.seen(format!("{}|throttled{}|af{}|delay{}|imm{}|postponed{}", KINDS[kind], throttled as u8, always_flush as u8, profile, immediate as u8, (kind == 7 && hits[9] > 0) as u8));
 	// ---- shutdown terminates
 	ctx.mark(&format!("{} :: dropping the handle", desc));
 	ctx.progress();
@@ -322,6 +397,24 @@ fn scenario(ctx: &Ctx, rep: &mut Report, case_seed: u64, variant: u64, kind: usi
 				rep.violation(
 					"scenario=C15;failure=not_persisted_after_drop".to_string(),
 					format!("after drop + reopen key {} of column {} reads {} but the last committed value has {}", pv::json::short_bytes(k), c, g.as_ref().map_or("nothing".to_string(), |x| format!("{} bytes", x.len())), v.as_ref().map_or("been removed".to_string(), |x| format!("{} bytes", x.len()))),
+					J::obj().set("case", J::s(desc.to_string())).set("case_seed", J::i(case_seed)).set("variant", J::i(variant)),
+				);
+				return
+			}
+		}
+	}
+	for (keys, want_live) in [(&live_trees, true), (&dead_trees, false)] {
+		for k in keys.iter() {
+			let root = match db.get_tree(2, k) {
+				Ok(None) => None,
+				Ok(Some(t)) => t.read().get_root().expect("get_root"),
+				Err(e) => panic!("get_tree after reopen: {}", e),
+			};
+			checked += 1;
+			if root.is_some() != want_live {
+				rep.violation(
+					format!("scenario=C15;failure={}", if want_live { "not_persisted_after_drop" } else { "postponed_dereference_never_applied" }),
+					format!("after drop + reopen tree {} is {} although its {} had returned", String::from_utf8_lossy(k), if want_live { "missing" } else { "still readable" }, if want_live { "insertion" } else { "dereference (committed under a read guard, released afterwards)" }),
 					J::obj().set("case", J::s(desc.to_string())).set("case_seed", J::i(case_seed)).set("variant", J::i(variant)),
 				);
 				return
